@@ -555,12 +555,21 @@ func (c *Ctx) intrinsic(id calleeID, cc *ssa.CallCommon, args []*Val, rt types.T
 			tt = p.Elem()
 		}
 		r := c.errAsTerm(args[0].S, tt)
-		// the target is overwritten
-		c.havocHeap(st, c.isGhostMap)
+		// only the target object is overwritten
+		done := false
 		if mi, ok := cc.Args[1].(*ssa.MakeInterface); ok {
 			if a := rootAlloc(mi.X); a != nil && c.localExact[a] {
 				st.locals[a] = c.freshVal(a.Type().Underlying().(*types.Pointer).Elem(), "astarget")
+				done = true
+			} else if pv := c.operand(mi.X, st); pv != nil && pv.K == VScalar && pv.Loc == nil {
+				if _, isPtr := mi.X.Type().Underlying().(*types.Pointer); isPtr {
+					c.storeObj(st, pv.S, tt, c.freshVal(tt, "astarget"))
+					done = true
+				}
 			}
+		}
+		if !done {
+			c.havocHeap(st, c.isGhostMap)
 		}
 		return &Val{K: VScalar, T: rt, S: r}, true
 	}
